@@ -399,6 +399,10 @@ func forRof(f *forExpander) forStateFn {
 		f.next()
 	}
 
+	if f.forCount >= 1 {
+		f.recordBodyEqus()
+	}
+
 	for i := 1; i <= f.forCount; i++ {
 		for _, tok := range f.forContent {
 			if tok.typ == tokText {
@@ -416,6 +420,56 @@ func forRof(f *forExpander) forStateFn {
 	// carry on with the lines after the block: every outermost block of the
 	// input is expanded in this pass
 	return forLine
+}
+
+// recordBodyEqus records the EQU lines that the block being expanded emits at
+// the outermost level (not those inside nested blocks, which a later pass
+// expands), as forEquLine does for the lines outside blocks, so that the
+// counts of the FOR blocks that follow can use them
+func (f *forExpander) recordBodyEqus() {
+	depth := 0
+	for start := 0; start < len(f.forContent); {
+		end := start
+		for end < len(f.forContent) && f.forContent[end].typ != tokNewline {
+			end++
+		}
+		line := f.forContent[start:end]
+		start = end + 1
+
+		labels := make([]string, 0)
+		for len(line) > 0 && line[0].typ == tokText && !line[0].IsPseudoOp() && !line[0].IsOp() {
+			labels = append(labels, line[0].val)
+			line = line[1:]
+		}
+		if len(line) == 0 || line[0].typ != tokText || !line[0].IsPseudoOp() {
+			continue
+		}
+		switch strings.ToLower(line[0].val) {
+		case "for":
+			depth++
+		case "rof":
+			depth--
+		case "equ":
+			if depth != 0 {
+				continue
+			}
+			value := make([]token, 0)
+			for _, tok := range line[1:] {
+				if tok.typ == tokComment {
+					continue
+				}
+				if tok.typ == tokText && tok.val == f.forCountLabel {
+					tok = token{tokNumber, "1"}
+				}
+				value = append(value, tok)
+			}
+			for _, label := range labels {
+				if _, ok := f.symbols[label]; !ok {
+					f.symbols[label] = value
+				}
+			}
+		}
+	}
 }
 
 func forEmitConsumeStream(f *forExpander) forStateFn {
